@@ -93,3 +93,26 @@ reg("C20", "^TestC20$", q=(3000, 4, 600), t=(30000, 16, 3000), fuzz=("FuzzC20", 
          "live matching bridge call, or an error with the claim untouched.",
     note="Trusted: go-ethereum ABI packer; the 15-line recursive specification. Domain: every call addressed to the bridge is a claim call.",
     design="§3 C20")
+
+reg("C02", "^TestC02$", q=(60, 4, 1200), t=(1500, 16, 5400), batch=60,
+    technique="property-based testing, model-based/stateful: odometer-exhaustive schedules up to a depth bound + rapid random walks driving the real aggsender loop iteration by iteration against a model Agglayer; oracle = model's submission checks + exactly-once settled content",
+    text="Exploration: the real aggsender (aggsender.New, real PP flow, queriers, status checker, SQLite storage, ECDSA signer; real "
+         "bridge and L1 info stores fed by a generated joint world) is stepped one loop iteration at a time under generated schedules; "
+         "every submission is checked by the model Agglayer (height, previous exit root, first block, no undecided predecessor, retry "
+         "keeps height and first block) and the settled certificates must contain every exit and claim exactly once in order.",
+    note="Trusted: the model Agglayer (state machine + checks), the joint world generator (tied to ref models), SQLite. A failed Agglayer call = rejected without effect (lost responses: C13).",
+    design="§3 C02")
+
+reg("C03", "^TestC03$", q=(100, 4, 1200), t=(1500, 16, 5400), batch=100,
+    technique="property-based testing, model-based: rapid-generated joint worlds and schedules through the real aggsender; oracle = recomputation of the new exit root from the wire-level exits on the model Agglayer's own tree + field-by-field equality with the world's events of the encoded block range",
+    text="Exploration: every certificate the real flow builds and submits is re-derived by the model Agglayer from its own copy of the "
+         "exit tree and from the ground-truth L2 history (exits, imported exits, order, every field, metadata block range).",
+    note="Trusted: ref.Frontier/BridgeLeaf, the joint world generator, the model Agglayer's tree (advanced on settlement only).",
+    design="§3 C03")
+
+reg("C09", "^TestC09$", q=(100, 4, 1200), t=(1500, 16, 5400), batch=100,
+    technique="property-based testing, model-based: rapid-generated L1 info/verified-batch histories, claim histories and finalized-pointer positions through the real aggsender; oracle = reference verification of every enclosed proof against the root the certificate names",
+    text="Exploration: for every imported exit of every submitted certificate the L1 leaf, its proof to the named root, the leaf count, "
+         "the GER relation and the exit's own proofs (leaf->MER, or leaf->LER->RER) are verified with the reference verifier against the ground-truth L1 world.",
+    note="Trusted: ref.VerifyProof/L1InfoLeaf/Sparse; world generator computes valid claim proofs from the reference trees.",
+    design="§3 C09")
